@@ -58,9 +58,6 @@ func (d slDriver) name() string {
 	if d.fine {
 		mode += "+fine"
 	}
-	if d.bound > 0 {
-		mode += fmt.Sprintf("+c%d", d.bound)
-	}
 	return fmt.Sprintf("%s/init=%s/%s", mode, strings.Join(in, ","), strings.Join(ts, "|"))
 }
 
@@ -211,9 +208,11 @@ func slJobs(prop string) func(tier string) []Job {
 			if tier == "thorough" && len(d.threads) == 2 && nops == 2 {
 				bound = 3
 			}
-			j := Job{Name: prop + "/" + d.name()}
 			if d.bound > 0 {
 				bound = d.bound
+			}
+			j := Job{Name: fmt.Sprintf("%s/%s/c%d", prop, d.name(), bound)}
+			if d.bound > 0 {
 				j.Shards = 16
 			}
 			j.Run = func(jc *JobCtx) { runSlDriver(jc, prop, d, bound) }
